@@ -179,6 +179,30 @@ Proof.
       exact (proj1 (tys_sized _ _ _ Te' k n Hk0)).
 Qed.
 
+(** the unifier computed for a typed target is a well-typed acyclic substitution, whatever the fuel *)
+Lemma reshape_wts G next pss (t : ptensor) s' goals nx fuel b st' :
+  ctx_good G -> ctx_below G next -> tys G (vaxes t) pss -> Forall gprimes pss ->
+  typed_target pss s' -> goal_axes s' next = (goals, nx) ->
+  unify fuel (productAxis goals) (productAxis (vaxes t)) (ustate0 nx) = Ok (b, st') ->
+  exists G', wts G' (us_subst st').
+Proof.
+  intros CG CB Te Gp (qss & Ec & Esz) Eg Eu. subst s'.
+  assert (Gq : Forall gprimes qss) by (apply gprimes_concat; rewrite Ec; apply gprimes_concat; exact Gp).
+  destruct (goal_typed qss G next goals nx CG CB Gq Eg) as (CG1 & CB1 & X1 & Tg).
+  set (G1 := goal_ctx G qss next) in *.
+  assert (Te1 : tys G1 (vaxes t) pss) by (apply (tys_ext G G1 next); assumption).
+  assert (Tpe : ty G1 (productAxis goals) (concat pss)) by (rewrite <- Ec; unfold productAxis; destruct (flat_map factors_of goals) as [|x [|y l]]; exact (ty_of_tyl _ _ _ Tg)).
+  assert (Tpf : ty G1 (productAxis (vaxes t)) (concat pss)) by (apply productAxis_ty; exact Te1).
+  assert (EL : unify_list fuel [productAxis goals] [productAxis (vaxes t)] (ustate0 nx) = Ok (b, st')).
+  { cbn [unify_list]. rewrite Eu. destruct b; reflexivity. }
+  destruct (unify_typed_mgu_any_fuel G1 [productAxis goals] [productAxis (vaxes t)] [concat pss] nx fuel b st' CG1 CB1) as (_ & (G' & L & X & T') & _).
+  { constructor; [exact Tpe|constructor]. }
+  { constructor; [exact Tpf|constructor]. }
+  { constructor; [apply gprimes_concat; exact Gp|constructor]. }
+  { exact EL. }
+  exists G'. exact (ts_wts _ _ T').
+Qed.
+
 Theorem reshape_refines_typed G pss inferred s next (t r : ptensor) nx' :
   wf V t -> ctx_good G -> ctx_below G next -> tys G (vaxes t) pss -> Forall gprimes pss ->
   (Nat.eqb (prodl' (shape V t)) (pnumel (paxes t)) && (prodl' (shape V t) <=? 1)) = false ->
